@@ -189,6 +189,12 @@ def run_c07(F, R, tier):
     e_lti_props.fisher_feedback(F, R)
     e_rolling.drawdown(F, R)
     e_trend.net_rules(F, R, tier)
+    # |CoG| <= (N-1)/2 for positive inputs follows from weights k in [1, n] with the same values in numerator and denominator
+    e_trend.cog_rules(F, R, tier)
+    # Min <= Sma, Alma <= Max over the same window: exact window + mirrored accumulators (convex weights), in real arithmetic
+    from .e_window import check_windows, check_accumulators
+    check_windows(F, R, ['Sma', 'Alma', 'Min', 'Max'], 'W1')
+    check_accumulators(F, R, {'Sma': 1, 'Alma': 2})
     pfe_rule(F, R, tier)
     R.floor('RG-out', 4)
     R.floor('RG-clip', 2)
